@@ -498,6 +498,23 @@ def emit(n, masks, path, modname):
     w("    }")
     w("}")
     w("")
+    w("/// One Entry kept across two calls: remove::<C>() under catch_unwind (the detached value's Drop may panic),")
+    w("/// then add(C2) through the SAME entry.  Returns None without an entry, else whether the removal panicked.")
+    w("pub fn entry_remove_then_add(w: &mut W, id: entity::Identifier, c: usize, c2: usize, val: u64) -> Option<bool> {")
+    w("    let mut e = w.entry(id)?;")
+    w("    let panicked = match c {")
+    for k in range(n):
+        w("        %d => std::panic::catch_unwind(std::panic::AssertUnwindSafe(|| { e.remove::<C%d, _>(); })).is_err()," % (k, k))
+    w("        _ => panic!(\"component {} out of range\", c),")
+    w("    };")
+    w("    match c2 {")
+    for k in range(n):
+        w("        %d => { e.add(C%d::new(val)); }" % (k, k))
+    w("        _ => panic!(\"component {} out of range\", c2),")
+    w("    }")
+    w("    Some(panicked)")
+    w("}")
+    w("")
     w("pub fn res_values(w: &W) -> [u64; 4] {")
     w("    [w.get::<RA, _>().tok(), w.get::<RB, _>().tok(), w.get::<RC, _>().tok(), w.get::<RD, _>().tok()]")
     w("}")
